@@ -20,6 +20,10 @@ var replSeeds = []replSeed{
 	{"isolated-tail", []string{"T:1", "run", "block:1:2", "block:1:3", "update:1", "run", "heal:1:2", "heal:1:3"}},
 	// follower n3 lags: it missed two committed entries
 	{"lagging", []string{"T:1", "run", "block:1:3", "update:1", "run", "update:1", "run", "heal:1:3"}},
+	// Figure-8 shape on three voters: n1 holds an uncommitted term-2 entry, n2 holds a term-3 no-op that reached nobody,
+	// n1 leads term 4 (its no-op appended, nothing of term 4 replicated yet), n3 holds neither
+	{"figure8", []string{"T:1", "run", "block:1:2", "block:1:3", "update:1", "run", "disc", "elect:2", "block:2:3", "run",
+		"heal:1:2", "heal:1:3", "heal:2:3", "disc", "elect:1", "elect:1"}},
 	// divergent tails: old leader n1 (term 2) has an uncommitted entry, n2 is leader of term 3 with its own entry
 	{"divergent", []string{"T:1", "run", "block:1:2", "block:1:3", "update:1", "run", "disc", "T:2", "run", "update:2", "run:4", "heal:1:2", "heal:1:3"}},
 }
@@ -33,6 +37,7 @@ func scenRepl(seed replSeed, dev int, eagerFSM bool, updates int, crashes int, m
 			Clients: []string{"update"}, MaxUpdates: updates},
 		MaxDev:  dev,
 		Crashes: crashes,
+		Final:   "adversary",
 	}
 }
 
